@@ -75,6 +75,50 @@ PROPS["C10"] = _e1({
                          "equal_amounts_in_different_units": 300, "same_unit_ops": 10000, "single_unit_ops": 2000}},
 })
 
+PROPS["C07"] = _e1({
+    "rule": "the whole finite domain: every unit of every quantity type (14 catalogue types, 4 astronomical types under "
+            "f64, synthetic types, AmountT) in both back-ends: name(), symbol(), si_prefix(), scale() against the "
+            "independently written definition chains (Decimal: exact value; f64: the correctly rounded double; "
+            "non-terminating definitions: 1e-15 relative), reference unit = scale one and named by both REF_UNIT "
+            "constants, and all ordered pairs of SI-prefixed units of a quantity for S_u/S_v = 10^(e_u-e_v). "
+            "states = units, transitions = accessor calls + prefix pairs",
+    "floors": {"quick": {"types": 26, "catalogue_units": 109, "exact_scale_checks": 150, "prefix_pairs": 200,
+                         "ref_unit_checks": 23}},
+})
+
+PROPS["C09"] = _e1({
+    "rule": "every quantity type: the full iter()/iter_units() sequences against the order computed by the model "
+            "(stable sort by scale, reference unit first among scale-one units, declaration order on other ties; name "
+            "order without reference unit); from_symbol/unit_from_symbol on every declared symbol, every near miss "
+            "generated from it (each single-character case flip, deletion, duplication, blanks, doubled, empty) and every "
+            "symbol of every other type; from_scale/unit_from_scale on every declared scale (reported and from the table), "
+            "both neighbours, negation, zero and every IEEE special; is_ref_unit, REF_UNIT, as_qty on every unit",
+    "floors": {"quick": {"types": 26, "units": 160, "sequences": 52, "symbol_hits": 160, "symbol_misses": 4000,
+                         "scale_hits": 150, "scale_misses": 400}},
+})
+
+PROPS["C16"] = _e1({
+    "backends": ["f64"],
+    "rule": {"quick": "exhaustive over the finite parts: all 25 prefixes (name, abbr, exp, both round trips, pairwise "
+                      "distinctness, iteration order), all 256 values of i8 through from_exp, all strings of length 0..2 "
+                      "over the abbreviation alphabet (every character of every abbreviation, its case-swapped forms, "
+                      "blank, 'u', 'x', '0', GREEK MU U+03BC and MICRO SIGN U+00B5) through from_abbr",
+             "thorough": "as quick plus all strings of length 3 over the same alphabet"},
+    "floors": {"quick": {"states": 1800, "sensitive": 75, "alphabet_chars": 35}},
+    "assumptions": ["SIPrefix does not depend on the amount back-end (one build suffices)"],
+})
+
+PROPS["C17"] = _e1({
+    "rule": "all units of all 14 catalogue quantity types (and the synthetic types) x V u adversarial amounts (f64: 17 "
+            "significant digits, 0.1+0.2, subnormals, f64::MAX, -0.0, 2^53+-1; Decimal: 18 fractional digits, trailing "
+            "zeros 1.50 vs 1.5 vs 1.500000000000000000, 38-digit coefficients, negative zero literal) through three "
+            "channels (serde_json Value tree; JSON text with the exactly rounding float parser; bytes); unit and "
+            "bit-identical amount must come back; units serialise as their variant names; a hash map from JSON text to "
+            "state proves injectivity over the whole explored set of each type",
+    "floors": {"quick": {"types": 25, "catalogue_units": 112, "round_trips_ok": 15000, "distinct_serialisations": 5000}},
+    "assumptions": ["serde_json 1.0 with feature float_roundtrip is the 'exactly rounding float parser' of the statement"],
+})
+
 
 def setup():
     t0 = time.time()
